@@ -22,3 +22,5 @@ def run(ctx, crate):
     rule_commit_on_success(ctx, crate)
     D.rule_llc_writers(ctx, crate)
     rule_suspend_protocol(ctx, crate)
+    D.rule_rows_newtype(ctx, crate)
+    D.rule_width_source(ctx, crate)
